@@ -254,8 +254,10 @@ def _lits():
 def _fmt(src):
     import subprocess
     import replaylib
-    r = subprocess.run([replaylib.prqlc_bin(), "fmt", "-"], input=src, capture_output=True, text=True, timeout=60)
-    return r.returncode == 0, (r.stdout if r.returncode == 0 else r.stderr + r.stdout)
+    # bytes in, bytes out: text mode would turn a CR LF inside a string literal of the formatted text into LF (universal newlines)
+    r = subprocess.run([replaylib.prqlc_bin(), "fmt", "-"], input=src.encode("utf-8"), capture_output=True, timeout=60)
+    out, err = r.stdout.decode("utf-8", "replace"), r.stderr.decode("utf-8", "replace")
+    return r.returncode == 0, (out if r.returncode == 0 else err + out)
 
 
 def _try(lit):
